@@ -4,7 +4,7 @@
    (assemble_chains = Modify.modify for all hosts and fragments) is the substitution theorem, pending; the check
    decides Modify.modify_all against the library's output per input in extracted Coq. *)
 From Coq Require Import List Bool Arith Lia.
-From GV Require Import Base.Util Spec.Smiles Spec.Chem Spec.Iso Spec.Graft Spec.Modify Spec.Acyl Gen.Tables Proofs.AcylThm Model.PolyCarbon Proofs.PolyCarbonThm.
+From GV Require Import Base.Util Spec.Smiles Spec.Chem Spec.Iso Spec.Graft Spec.Modify Spec.Acyl Gen.Tables Proofs.AcylThm Model.PolyCarbon Proofs.PolyCarbonThm Proofs.PolyCarbonGen.
 Import ListNotations.
 Open Scope list_scope.
 
@@ -49,3 +49,12 @@ Theorem C04_poly_carbon_is_the_designation_bounded a :
   parse_poly_carbon (name_of a) = acyl_text a.
 Proof. exact (poly_carbon_is_the_designation_bounded a). Qed.
 Print Assumptions C04_poly_carbon_is_the_designation_bounded.
+
+(* UNBOUNDED, for the insertion loop of parse_poly_carbon alone (the loop as it stands in Model/PolyCarbon.v): for every
+   chain length and every list of isolated double bonds -- ascending, the marked single bonds of two of them not
+   touching -- inserting the sorted modifications writes them from left to right (PolyCarbonGen.render) *)
+Theorem C04_insertion_loop_on_isolated_double_bonds dbs L :
+  isolated_from 0 dbs -> Forall (fun d => snd d + 1 <= L + 1) dbs ->
+  fold_left (fun ch x => insert_at (fst x - 1) (snd x) ch) (sort_desc (mods_of dbs)) (cs L) = render (mods_of dbs) 0 L.
+Proof. exact (loop_on_isolated_double_bonds dbs L). Qed.
+Print Assumptions C04_insertion_loop_on_isolated_double_bonds.
